@@ -1,5 +1,5 @@
 """property id -> rules, explanation of what is / is not decided"""
-from rules import r_hist, r_lock, r_errdrop, r_coord, r_keyid, r_opcode, r_doaction, r_cancel, r_idle, r_loop, r_traverse, r_repeat, r_chv2, r_wait, r_macro, r_seq, r_override, r_reload, r_pipeline, r_dynmacro, r_vkey, r_layers, r_panic, r_prodcons, r_span, r_rec, r_evict, r_coordspace
+from rules import r_hist, r_lock, r_errdrop, r_coord, r_keyid, r_opcode, r_doaction, r_cancel, r_idle, r_loop, r_traverse, r_repeat, r_chv2, r_wait, r_macro, r_seq, r_override, r_reload, r_pipeline, r_dynmacro, r_vkey, r_layers, r_panic, r_prodcons, r_span, r_rec, r_evict, r_coordspace, r_loopvar, r_depth
 
 PROPS = {
     "C01": {
@@ -11,7 +11,7 @@ PROPS = {
         "not_decided": "bounded-time liveness over all histories; diff logic prev_keys/cur_keys; timeout arithmetic",
     },
     "C02": {
-        "rules": [r_panic.run_rt, r_prodcons.run, r_rec.run_rt, r_coordspace.run, r_lock.run, r_opcode.run_all],
+        "rules": [r_panic.run_rt, r_prodcons.run, r_rec.run_rt, r_coordspace.run, r_lock.run, r_opcode.run_all, r_loopvar.run_rt],
         "explanation": "Decides: (R-PANIC/rt) every panic-capable site (bounds check, slice/Vec index, unsigned subtraction, narrow "
                        "addition/multiplication, negation, division, shift, unwrap/expect, assert!/unreachable!/panic!) in the "
                        "functions reachable from the event/tick entry points is either discharged by the guard data-flow (constant "
@@ -19,7 +19,10 @@ PROPS = {
                        "closure fact inheritance) or matched by a reviewed invariant in rules/panic_tables.py; anything else is "
                        "reported naming the site. (R-PRODCONS) each parser-side bound that run-time arithmetic relies on "
                        "(non-zero intervals and timeouts, non-empty tap-dance lists, chords-v2 min idle >= 5) is re-derived by "
-                       "data-flow at every aggregate / field store that produces the value. (R-LOCK) no (non re-entrant) mutex is "
+                       "data-flow at every aggregate / field store that produces the value. (R-LOOPVAR) every loop on the event/tick path is driven by a finite iterator, has an integer or "
+                       "collection length that moves strictly in one direction on every path round the loop (path enumeration with "
+                       "difference constraints; upward variants need an invariant bound), or is in a reviewed table. "
+                       "(R-LOCK) no (non re-entrant) mutex is "
                        "locked again on the thread that still holds its guard: guard live ranges vs. the call graph, lock wrappers "
                        "such as zch() included, closures given to thread::spawn excluded. Library calls with panicking "
                        "preconditions (heapless extend, ArrayDeque::drain, slice::swap, clone_from_slice, RefCell::borrow_mut, "
@@ -31,7 +34,7 @@ PROPS = {
                        "caller's own action, never from stored state (except the reviewed defsrc row)",
     },
     "C03": {
-        "rules": [r_panic.run_parse, r_span.run, r_rec.run_parse, r_coordspace.run, r_errdrop.run, r_opcode.run_all],
+        "rules": [r_panic.run_parse, r_span.run, r_rec.run_parse, r_coordspace.run, r_errdrop.run, r_opcode.run_all, r_loopvar.run_parse, r_depth.run],
         "explanation": "Decides: (R-SPAN) the lexer only compares bytes with ASCII constants, Span/Position are built or modified "
                        "only in the s-expression module, the single post-hoc span adjustment is guarded by a test selecting exactly "
                        "one lexer message, and text is indexed by a span only through Index<Span> on that span's own file_content(); "
@@ -42,7 +45,11 @@ PROPS = {
                        "naming the site. (R-ERRDROP) every ParseError / anyhow error / Err(..) the parser constructs is returned or "
                        "stored, never built and dropped (a dropped error means the check it belongs to does not stop the parser). "
                        "(R-COORDSPACE) layer indexes exist only for fewer than MAX_LAYERS layers and a virtual key's index is below "
-                       "KEYS_IN_ROW from the moment it is stored.",
+                       "KEYS_IN_ROW from the moment it is stored. (R-LOOPVAR) every loop of the parser is iterator-driven over a "
+                       "finite source, has a strictly moving variant (e.g. the remainder slice returned by parse_macro_item is a "
+                       "strict suffix), or is in a reviewed table. (R-DEPTH) the recursion depth is bounded by explicit guards: the "
+                       "reader's open-list stack, the action nesting counter that every cycle of the action parsers passes "
+                       "through, the template expansion nesting and size budget, the variable chain length.",
         "not_decided": "termination of loops, stack depth (self-referential defvar recursion is a known limitation), miette internals, "
                        "char-boundary safety of span slicing beyond the reviewed lexer invariant",
     },
